@@ -67,22 +67,36 @@ def gen_case(rng, i, max_m=8):
     if rng.random() < 0.3:
         # the same aggregator INSTANCE is then applied to further matrices (same number of rows): every call must be right
         keep_m = ["gaussian", "lowrank", "antiparallel", "duplicated", "rowscale", "ints", "zero_rows", "nonconflicting"]
-        case["then"] = [M.gen(rng, m=m, klass=keep_m[int(rng.integers(len(keep_m)))], max_n=12)[0].tolist() for _ in range(int(rng.integers(1, 3)))]
+        if rng.random() < 0.5:
+            # ... through ONE pre-allocated Jacobian buffer refilled in place (same tensor object, same shape, new content), with no
+            # other call in between
+            case["then"] = [M.gen(rng, m=m, n=J.shape[1], klass=keep_m[int(rng.integers(len(keep_m)))])[0].tolist() for _ in range(int(rng.integers(1, 3)))]
+            case["buffer"] = True
+        else:
+            case["then"] = [M.gen(rng, m=m, klass=keep_m[int(rng.integers(len(keep_m)))], max_n=12)[0].tolist() for _ in range(int(rng.integers(1, 3)))]
     return case
 
 
 def check_case(case, ctx):
     a = case["agg"]
     agg = aggs.make(a, DT[case["dtype"]])
-    check_one(case, case["J"], agg, ctx, first=True)
+    holder = [] if case.get("buffer") else None
+    check_one(case, case["J"], agg, ctx, first=True, holder=holder)
     for k, Jn in enumerate(case.get("then", [])):
         ctx.count("w_instance_reused_on_another_matrix")
-        check_one(case, Jn, agg, ctx, first=False, label=f"call {k + 2} of the same instance")
+        check_one(case, Jn, agg, ctx, first=False, label=f"call {k + 2} of the same instance", holder=holder)
 
 
-def check_one(case, Jlist, agg, ctx, first, label="first call"):
+def check_one(case, Jlist, agg, ctx, first, label="first call", holder=None):
     dname = case["dtype"]
     Jt = to_t(np.array(Jlist, dtype=np.float64).reshape(len(Jlist), -1), dname)
+    if holder is not None:
+        if holder and holder[0].shape == Jt.shape:
+            holder[0].copy_(Jt)  # the caller's pre-allocated buffer, refilled in place
+            Jt = holder[0]
+            ctx.count("w_matrix_buffer_refilled_in_place")
+        else:
+            holder[:] = [Jt]
     J = as64(Jt)
     m, n = J.shape
     a = case["agg"]
